@@ -25,7 +25,7 @@ from itertools import combinations
 
 from sx.runner import Unit
 from sx.engine import Unsupported
-from sx.proxies import sand, sor, snot, simplies, ite, smax, is_sym
+from sx.proxies import sand, sor, snot, simplies, ite, smax, is_sym, const
 
 PROPERTY = "C08"
 
@@ -264,6 +264,8 @@ def _run(ctx, shape, prog, blen, vbits, distinct, frag):
                 cs.append(simplies(pre, sum(ws[i] for i in sub) <= n))
         return sand(*cs)
 
+    shared_tags = []
+
     def define(i):
         name, scope, lmode, smode, tags = shape[i]
         req = tuple(scope)
@@ -275,6 +277,13 @@ def _run(ctx, shape, prog, blen, vbits, distinct, frag):
         S = ctx.bv("S_" + name, 6, 0, nmax + 1) if smode == "sym" else smode
         if smode == "sym":
             ctx.assume(S <= n + 1)
+        tags_arg = tags
+        if isinstance(tags, tuple) and tags and tags[0] == "@shared":
+            # one set object of the caller's, handed to several fields
+            tags = tags[1:]
+            if not shared_tags:
+                shared_tags.append(set(tags))
+            tags_arg = shared_tags[0]
         tagset = set(tags.split()) if isinstance(tags, str) else set(tags)
         f = MF(name, req, L, S, tagset)
         anc = [ancestor(req, p) for p, k in req]
@@ -290,7 +299,7 @@ def _run(ctx, shape, prog, blen, vbits, distinct, frag):
         h = handles[req]
         try:
             h.add_field(name, length=L, start_at=S,
-                        tags=(tags if tags else None))
+                        tags=(tags_arg if tags else None))
         except ValueError as e:
             ctx.observe("add_field", name, "ValueError")
             if S is None:
@@ -314,6 +323,10 @@ def _run(ctx, shape, prog, blen, vbits, distinct, frag):
                           (name, S, width, g.name, g.s, gw))
         f.handle = h
         fields.append(f)
+        if shared_tags:
+            ctx.witness("shared-tags-set")
+            ctx.prove(shared_tags[0] == set(SHARED_TAGS),
+                      "caller-tags-set-modified", sorted(shared_tags[0]))
         for g in anc:
             g.tags |= tagset
         del live[:]
@@ -503,9 +516,12 @@ def _run(ctx, shape, prog, blen, vbits, distinct, frag):
                 ctx.prove(False, "get-value-failed", repr(e))
                 return False
             ctx.observe("handle mask", len(req), m)
-            want = 0
+            want = const(0, bv=True)
             for f, c in en:
-                want = want | ite(c, _bits(f.s, f.l), 0)
+                b = _bits(f.s, f.l)
+                if isinstance(b, int):
+                    b = const(b, bv=True)
+                want = want | ite(c, b, const(0, bv=True))
             ctx.prove(m == want, "mask-not-union",
                       ("retained handle", len(req), m, want))
         return True
@@ -604,6 +620,17 @@ def taginherit():
             ("c", (("a", "k0"),), None, None, ("t",)),
             ("b", (("a", "k1"),), None, None, ()),
             ("d", (("a", "k1"), ("b", "k2")), None, None, ("t",)))
+
+
+SHARED_TAGS = ("r",)
+
+
+def tagshared():
+    """Two unconditional fields given the caller's one set object as their
+    tags; a field in the scope of the first brings a tag of its own."""
+    return (("a", (), None, None, ("@shared",) + SHARED_TAGS),
+            ("b", (), None, None, ("@shared",) + SHARED_TAGS),
+            ("x", (("a", "k0"),), None, None, ("p",)))
 
 
 def tagtwo():
@@ -706,6 +733,8 @@ def units(tier, seed):
     # ---- tags whose propagation must pass an already tagged ancestor --
     add("tag tree", tagtree(), "DVA", 8, 2, w=("tag-mask",), split=5)
     add("tag two keys", tagtwo(), "DVA", 8, 2, w=("tag-mask",), split=5)
+    add("tags one set for two fields", tagshared(), "DVA", 8, 2,
+        w=("tag-mask", "shared-tags-set"), split=4)
     add("tag inherited", taginherit(), "DVA", 8, 2, distinct=R,
         w=("tag-mask",), split=5)
     # ---- known finding: fragmentation with two independent parents ---
